@@ -1,5 +1,5 @@
 """Property -> rule composition.  Each function decides the statically decidable clauses of one property."""
-from .rules import kdefects, numeric, seed, typestate, ownership, clifford, circuit, stabilizer, adjoint, manifold, gellmann, twins, backend, masks, axes, pauli, convexroof, boundary
+from .rules import kdefects, numeric, seed, typestate, ownership, clifford, circuit, stabilizer, adjoint, manifold, gellmann, twins, backend, masks, axes, pauli, convexroof, boundary, measure, relabel
 
 M = 'numqi.'
 DECISION_C05 = ['numqi.entangle.ppt.is_ppt', 'numqi.entangle.ppt.is_generalized_ppt',
@@ -188,6 +188,8 @@ def c03(proj, rep, tier):
     rep.floor('D1 dispatch obligations', n, 17)
     n = circuit.u1(proj, rep)
     rep.floor('U1 to_unitary', n, 1)
+    n = relabel.r1(proj, rep)
+    rep.floor('R1 leg-relabelling contractions', n, 6)
     backend.b1(proj, rep, ['numqi.gate._internal'], expect_match=B1_GATE)
     n = ownership.o2(proj, rep)
     rep.floor('O2 cached functions examined', n, 20)
@@ -205,6 +207,8 @@ def c04(proj, rep, tier):
     rep.floor('A Knill-Laflamme backward obligations', n, 5)
     n = adjoint.d1(proj, rep)
     rep.floor('D1/A1/A3 circuit sweep obligations', n, 17)
+    n = relabel.r1(proj, rep)
+    rep.floor('R1 leg-relabelling contractions (op_grad legs)', n, 6)
     backend.b1(proj, rep, ['numqi.gate._internal'], expect_match=B1_GATE)
     n = twins.tw(proj, rep, ['numqi.sim.state', 'numqi.sim._torch_utils', 'numqi._torch_op', 'numqi.qec._internal'])
     rep.floor('TW twin blocks in the backward helpers (grad / conj halves of the op_grad contraction)', n, 2)
@@ -256,6 +260,8 @@ def c11(proj, rep, tier):
     rep.floor('D3 shift arms (measure bookkeeping)', n, 3)
     n = circuit.d4(proj, rep)
     rep.floor('D4 MeasureGate role obligations', n, 3)
+    n = measure.m1(proj, rep)
+    rep.floor('M1 bit-order obligation', n, 1)
 
 
 def c18(proj, rep, tier):
@@ -281,7 +287,7 @@ def c20(proj, rep, tier):
 
 
 def dev(proj, rep, tier):
-    print(boundary.p1(proj, rep), boundary.i1(proj, rep), boundary.c1(proj, rep))
+    print(relabel.r1(proj, rep))
 
 
 PROPS = {'C01': c01, 'C02': c02, 'C06': c06, 'C08': c08, 'C13': c13, 'C12': c12, 'C15': c15, 'C16': c16, 'C03': c03, 'C04': c04, 'C05': c05, 'C07': c07, 'C19': c19, 'C10': c10, 'C11': c11, 'C18': c18, 'C20': c20, 'DEV': dev}
